@@ -35,6 +35,9 @@ RULE = ('random API-built designs from gen_designs without nand (15 primitive op
         'History: a subset of designs is exported (module under the three options + testbench, each twice: '
         'identical text required), then EXTENDED IN PLACE (new Input, Register, Outputs, read ports, sometimes a '
         'new written memory) and only the export of the extended block goes through tie + search + testbench.  '
+        'Variants: blocks NOT built directly -- copy_block, copy of a copy, optimize (copy and in place), synthesize '
+        '(+optimize) results -- and designs whose memories all share one name with different initial contents go '
+        'through the same module tie + search + testbench checks.  '
         'Sanitizer: per design the Coq sanitizer model (parameters regenerated from the source) is evaluated on '
         'the wire names and compared with the identifiers read off the emitted text.  '
         'Targeted: every IEEE 1364-2001 keyword as a wire name; sanitizer-prefix, mem_<id> and '
@@ -177,8 +180,10 @@ def simulate(cls, d, regmap, memmap, inputs, dflt):
     block = d.block
     tracer = pyrtl.SimulationTrace(wires_to_track='all' if cls is pyrtl.Simulation else None, block=block)
     with contextlib.redirect_stdout(io.StringIO()):
+        # Simulation looks a PostSynthBlock's memories up through block.mem_map (keys = the original MemBlocks)
+        orig = getattr(d, 'orig_mem', {}) if cls is pyrtl.Simulation else {}
         sim = cls(tracer=tracer, register_value_map=dict(regmap),
-                  memory_value_map={m: dict(c) for m, c in memmap.items()},
+                  memory_value_map={orig.get(m, m): dict(c) for m, c in memmap.items()},
                   default_value=dflt, block=block)
         for step in inputs:
             sim.step(dict(step))
@@ -207,8 +212,7 @@ def design_replay(ctx, i, d, extra):
 def make_case(ctx, i):
     rng = ctx.sub_rng('design', i)
     wide = 0.08 if (i if isinstance(i, int) else i[1]) % 4 else 0.35
-    ops = ['&', '|', '^', '~', '+', '-', '*', '<', '>', '==', '!=', '<=', '>=', 'mux', 'concat', 'slice',
-           'index', 'const', 'trunc', 'zext', 'sext', 'memrd', 'romrd', 'select']
+    ops = make_case.ops
     d = gen_designs.make_design(rng, wide_prob=wide, ops_subset=ops,
                                 n_ops=rng.randint(3, 14 if ctx.tier == 'quick' else 20))
     renamed = rename_some(rng, d) if rng.random() < 0.4 else []
@@ -217,7 +221,90 @@ def make_case(ctx, i):
     return d, renamed, regmap, memmap, inputs
 
 
+make_case.ops = ['&', '|', '^', '~', '+', '-', '*', '<', '>', '==', '!=', '<=', '>=', 'mux', 'concat', 'slice',
+                 'index', 'const', 'trunc', 'zext', 'sext', 'memrd', 'romrd', 'select']
+
+
 # ---------------------------------------------------------------- module: tie + search
+
+def design_of_block(block):
+    """Design record (inputs, registers, memories ...) read off an arbitrary block"""
+    d = gen_designs.Design(block)
+    byname = lambda w: w.name
+    d.inputs = sorted(block.wirevector_subset(pyrtl.Input), key=byname)
+    d.outputs = sorted(block.wirevector_subset(pyrtl.Output), key=byname)
+    d.regs = sorted(block.wirevector_subset(pyrtl.Register), key=byname)
+    mems = sorted({n.op_param[1] for n in block.logic_subset('m@')}, key=lambda m: m.id)
+    d.mems = [m for m in mems if not isinstance(m, pyrtl.RomBlock)]
+    d.roms = [m for m in mems if isinstance(m, pyrtl.RomBlock)]
+    d.ops = [{'s': 'select', 'c': 'concat', 'm': 'memrd', '@': 'memwr', 'x': 'mux'}.get(n.op, n.op)
+             for n in block.logic if n.op not in 'wr']
+    return d
+
+
+DERIVATIONS = ['copy_block', 'optimize-copy', 'optimize-inplace', 'synthesize-copy', 'copy-of-copy',
+               'synthesize+optimize']
+
+
+def derive_block(how, d):
+    """a block that was NOT built directly through the construction API: the result of a pass / copy"""
+    b = d.block
+    with pyrtl.set_working_block(b, no_sanity_check=True):
+        if how == 'copy_block':
+            nb = pyrtl.copy_block(b)
+        elif how == 'copy-of-copy':
+            nb = pyrtl.copy_block(pyrtl.copy_block(b))
+        elif how == 'optimize-copy':
+            nb = pyrtl.optimize(update_working_block=False, block=b)
+        elif how == 'optimize-inplace':
+            pyrtl.optimize(block=b)
+            nb = b
+        elif how == 'synthesize-copy':
+            nb = pyrtl.synthesize(update_working_block=False, block=b)
+        else:
+            nb = pyrtl.synthesize(update_working_block=False, block=b)
+            pyrtl.optimize(block=nb)
+    nb.sanity_check()
+    nd = design_of_block(nb)
+    if isinstance(nb, pyrtl.PostSynthBlock):
+        nd.orig_mem = {new: old for old, new in nb.mem_map.items()}
+    return nd
+
+
+def make_variant(ctx, i):
+    """('d', k): a derived block (pass / copy);  ('n', k): a design whose memories all carry ONE name (legal:
+    memories are told apart by id) and start from different contents"""
+    kind, k = i
+    for attempt in range(60):
+        rng = ctx.sub_rng('variant', i, attempt)
+        small = kind == 'd' and DERIVATIONS[k % len(DERIVATIONS)].startswith('synthesize')
+        d = gen_designs.make_design(rng, wide_prob=0.0 if small else 0.08, max_width=4 if small else None,
+                                    n_ops=rng.randint(3, 7 if small else 12),
+                                    ops_subset=[o for o in make_case.ops if not (small and o == '*')])
+        if kind == 'n' and len(d.mems) < 2:
+            continue
+        if kind == 'd' and k % 2 == 0 and not (d.mems or d.roms):
+            continue
+        break
+    note = ''
+    if kind == 'n':
+        for m in d.mems:
+            m.name = 'shared_name'
+        note = '%d memories named shared_name' % len(d.mems)
+    else:
+        how = DERIVATIONS[k % len(DERIVATIONS)]
+        d = derive_block(how, d)
+        note = how
+        if len(d.block.logic) > (260 if ctx.tier == 'quick' else 500):
+            return None
+    ncycles = rng.randint(2, 5)
+    regmap, memmap, inputs = gen_designs.make_stimulus(rng, d, ncycles)
+    if kind == 'n':
+        for m in d.mems:   # every memory starts from its own non-default contents
+            memmap[m] = {a: gen_designs.boundary_value(rng, m.bitwidth) | 1 for a in range(1 << m.addrwidth)
+                         if a == 0 or rng.random() < 0.6}
+    return d, note, regmap, memmap, inputs
+
 
 def extend_in_place(rng, d):
     """add logic to the SAME Block object after it has been exported once: a new Input, a new Register, new
@@ -280,15 +367,31 @@ def history_prefix(ctx, i, d, memmap, inputs):
     return same
 
 
-def module_cases(ctx, n, n_hist):
-    """n fresh designs exported once; then n_hist designs with a history: exported (module + testbench, twice,
-    identical text required), EXTENDED IN PLACE, and only then put through the same tie + search"""
+def module_cases(ctx, n, n_hist, n_derived=0, n_samename=0):
+    """n fresh designs exported once; n_hist designs with a history: exported (module + testbench, twice,
+    identical text required), EXTENDED IN PLACE, and only then put through the same tie + search; n_derived
+    blocks produced by copy_block / optimize / synthesize; n_samename designs whose memories share a name"""
     exprs, meta, spec_exprs, spec_meta = [], [], [], {}
     san_exprs, san_meta = [], []
     tb_jobs = []
-    plan = [(i, False) for i in range(n)] + [(('h', k), True) for k in range(n_hist)]
+    plan = [(i, False) for i in range(n)] + [(('h', k), True) for k in range(n_hist)] + \
+           [(('d', k), False) for k in range(n_derived)] + [(('n', k), False) for k in range(n_samename)]
     for i, hist in plan:
-        d, renamed, regmap, memmap, inputs = make_case(ctx, i)
+        variant = ''
+        if isinstance(i, tuple) and i[0] in 'dn':
+            try:
+                made = make_variant(ctx, i)
+            except (pyrtl.PyrtlError, pyrtl.PyrtlInternalError) as e:
+                ctx.count('variants', 'rejected:%s:%s' % (DERIVATIONS[i[1] % len(DERIVATIONS)], type(e).__name__))
+                continue
+            if made is None:
+                ctx.count('variants', 'too-large')
+                continue
+            d, variant, regmap, memmap, inputs = made
+            renamed = []
+            ctx.count('variants', variant if i[0] == 'd' else 'same-name-memories')
+        else:
+            d, renamed, regmap, memmap, inputs = make_case(ctx, i)
         history = []
         if hist:
             rng = ctx.sub_rng('history', i)
@@ -315,8 +418,18 @@ def module_cases(ctx, n, n_hist):
             except (pyrtl.PyrtlError, pyrtl.PyrtlInternalError) as e:
                 ctx.count('export', 'rejected:' + str(e)[:40])
                 continue
+            except Exception as e:   # not a PyRTL rejection: the exporter crashed on a sane block
+                report_once(ctx, 'verilog:export-crash:%s' % type(e).__name__,
+                            'output_to_verilog raised %s (%s) on a block that passes sanity_check (design %r%s, '
+                            'add_reset=%r)' % (type(e).__name__, str(e)[:200], i, ' ' + variant if variant else '',
+                                               add_reset),
+                            design_replay(ctx, i, d, {'add_reset': add_reset, 'variant': variant}))
+                continue
             rep = design_replay(ctx, i, d, {'add_reset': add_reset, 'renamed': [short(x) for x in renamed],
                                            'inputs': [{short(k): v for k, v in s.items()} for s in inputs]})
+            if variant:
+                rep['variant'] = variant
+                rep['text'] = text[:3000]
             if hist:
                 rep['history'] = ('exported module+testbench under all options, then extended in place with %s, '
                                   'then exported again (this text)' % history)
@@ -380,8 +493,8 @@ def module_cases(ctx, n, n_hist):
             san_exprs.append('sanitizer_case [%s]' % '; '.join(
                 nlx.zlist(list(w.name.encode('utf-8'))) for w in dump.wires))
             san_meta.append((i, [(w.name, ident_of.get(id(w))) for w in dump.wires]))
-            small = len(dump.wires) <= (90 if hist else 60)
-            if small and (hist or i < (20 if ctx.tier == 'quick' else 80)):
+            small = len(dump.wires) <= (90 if isinstance(i, tuple) else 60)
+            if small and (hist or isinstance(i, tuple) or i < (20 if ctx.tier == 'quick' else 80)):
                 tb_jobs.append((i, d, idmap, dump, regmap, memmap, inputs))
     shard = 12 if ctx.tier == 'quick' else 40
     spec = ctx.coq_eval(spec_exprs, IMPORTS, tag='c05spec', shard=shard, jobs=12)
@@ -490,7 +603,7 @@ def testbench_cases(ctx, jobs):
             rep = design_replay(ctx, i, d, {
                 'simulator': sname, 'add_reset': add_reset, 'default_value': dflt,
                 'register_value_map': {short(r.name): v for r, v in regmap.items()},
-                'memory_value_map': {m.name: c for m, c in memmap.items()},
+                'memory_value_map': {'mem_%d (%s)' % (m.id, m.name): c for m, c in memmap.items()},
                 'inputs': [{short(k): v for k, v in s.items()} for s in inputs]})
             try:
                 text = export_tb(block, tracer, add_reset)
@@ -629,8 +742,8 @@ def collide(ctx, sig, what):
 
 def run(ctx):
     _reported.clear()
-    n, n_hist = (44, 8) if ctx.tier == "quick" else (850, 80)
-    tb_jobs = module_cases(ctx, n, n_hist)
+    n, n_hist, n_der, n_same = (36, 6, 12, 6) if ctx.tier == "quick" else (800, 60, 120, 40)
+    tb_jobs = module_cases(ctx, n, n_hist, n_der, n_same)
     testbench_cases(ctx, tb_jobs)
     targeted(ctx)
 
